@@ -83,6 +83,24 @@ def ground_axioms(enc, ob):
                     f"(=> (and (>= {N(x1)} 0.0) (>= {N(x2)} 0.0)) (= (= {N(i1)} {N(x2)}) (= {N(i2)} {N(x1)})))")
                 add("order form of the inverse pair: pow(x,p) < y <=> x < pow(y,1/p)",
                     f"(=> (and (>= {N(x1)} 0.0) (>= {N(x2)} 0.0)) (= (< {N(i1)} {N(x2)}) (< {N(x1)} {N(i2)})))")
+                # approximate form (the code's constants make the inner value only nearly the other application's result):
+                # r2 = pow(x2, q) and pow(r1, q) = x1 (q = 1/p), so |r2 - x1| = |pow(x2,q) - pow(r1,q)| <= Lipschitz * |x2 - r1| (mean value theorem)
+                for (xa, ia, xb, ib, q) in ((x1, i1, x2, i2, v2), (x2, i2, x1, i1, v1)) if abs(v1 * v2 - 1.0) < 1e-14 else ():
+                    # (p q = 1 to 1e-14: x^(p q) differs from x by less than 1e-13 for x <= 4, inside the 1e-12 slack below)
+                    # ib = pow(xb, q), ia = pow(xa, 1/q): compare xb with ia
+                    d = f"(- {N(xb)} {N(ia)})"
+                    e = f"(- {N(ib)} {N(xa)})"
+                    absd = f"(ite (>= {d} 0.0) {d} (- {d}))"
+                    abse = f"(ite (>= {e} 0.0) {e} (- {e}))"
+                    if q >= 1:
+                        L = q * 4.0 ** (q - 1) * 1.000001
+                        add("approximate inverse pair (q >= 1): |pow(y,q) - x| <= q 4^(q-1) |y - pow(x,1/q)| + 1e-12 for 0 <= y, pow(x,1/q) <= 4",
+                            f"(=> (and (>= {N(xa)} 0.0) (>= {N(xb)} 0.0) (<= {N(xb)} 4.0) (<= {N(ia)} 4.0)) (<= {abse} (+ (* {fr(L)} {absd}) 0.000000000001)))")
+                    else:
+                        m = 1e-3
+                        L = q * m ** (q - 1) * 1.000001
+                        add("approximate inverse pair (q < 1): |pow(y,q) - x| <= q m^(q-1) |y - pow(x,1/q)| + 1e-12 for y, pow(x,1/q) >= m = 1e-3, x <= 4",
+                            f"(=> (and (>= {N(xa)} 0.0) (<= {N(xa)} 4.0) (>= {N(xb)} {fr(m)}) (>= {N(ia)} {fr(m)})) (<= {abse} (+ (* {fr(L)} {absd}) 0.000000000001)))")
     # Lipschitz bounds between applications with the same constant exponent (mean value theorem on a guarded range):
     #   p >= 1: |x^p - y^p| <= p M^(p-1) |x - y|  for 0 <= x, y <= M ;  p < 1: |x^p - y^p| <= p m^(p-1) |x - y|  for x, y >= m
     for a in range(len(pows)):
@@ -305,6 +323,10 @@ def ground_axioms(enc, ob):
     if os.environ.get("PV_POW_ENCLOSURES", "1") != "0":
         GRID = [1e-6, 1e-4, 1e-3, 4e-3, 0.01, 0.025, 0.05, 0.1, 0.18, 0.3, 0.45, 0.65, 0.85, 1.0, 1.25, 1.6, 2.0, 3.0, 4.5, 7.0, 11.0,
                 18.0, 30.0, 50.0, 100.0, 250.0, 1000.0]
+        # the knees of the piecewise transfer functions (sRGB, Rec.709/2020, ProPhoto) and their images, so that the enclosure is tight
+        # exactly where the code switches segment
+        GRID = sorted(set(GRID + [0.0031308, 0.04045, (0.04045 + 0.055) / 1.055, 0.018, 0.081, (0.081 + 0.099) / 1.099, 0.018053968510807,
+                                  0.001953125, 0.03125, 1.0 / 512.0]))
         up = lambda v: v * (1 + 1e-12) if v >= 0 else v * (1 - 1e-12)
         dn = lambda v: v * (1 - 1e-12) if v >= 0 else v * (1 + 1e-12)
         for (x, pnode), i in pows:
